@@ -3,16 +3,31 @@
   ascending order; the CLI conversion feeds the values, in that order, to `DynamicParams::from(Vec<usize>)`,
   which assigns them to the struct fields by POSITION.  So the sorted Stone keys must line up with the struct
   fields.  Stone writes `add_mod__a0_suboffset` where the struct has `add_mod_a0_suboffset`.
+
+  Kernel note: `String.toList` of a literal costs the kernel ~0.15 s (UTF-8 encode + decode), so the 340 keys
+  are turned into `List Char` literals at elaboration time (`charLists%`); `String.ofList l = "literal"` is cheap.
 -/
+import Lean
 import Swiftness.Proofs.LoaderBasic
 
 namespace Swiftness.Loader
 open Swiftness
 
+/-- `charLists% ["ab", "c"]` elaborates to the literal `[['a','b'], ['c']]` -/
+syntax (name := charListsStx) "charLists% " "[" str,* "]" : term
+
+open Lean Elab Term in
+@[term_elab charListsStx] def elabCharLists : TermElab := fun stx _ => do
+  match stx with
+  | `(charLists% [ $ss,* ]) =>
+    let l : List (List Char) := ss.getElems.toList.map fun s => s.getString.toList
+    return toExpr l
+  | _ => throwUnsupportedSyntax
+
 /-- The 340 keys of `public_input.dynamic_params`, in FILE order, copied from
     `/repo/examples/proofs/dynamic/cairo0_stone6_example_proof.json`
-    (extracted with `json.loads(..., object_pairs_hook=...)`, i.e. without re-ordering). -/
-def stoneDynamicKeys : List String :=
+    (extracted with `json.loads(..., object_pairs_hook=...)`, i.e. without re-ordering), as `List Char`s. -/
+def stoneKeyChars : List (List Char) := charLists%
   ["add_mod__a0_suboffset", "add_mod__a1_suboffset", "add_mod__a2_suboffset", "add_mod__a3_suboffset",
    "add_mod__a_offset_suboffset", "add_mod__b0_suboffset", "add_mod__b1_suboffset", "add_mod__b2_suboffset",
    "add_mod__b3_suboffset", "add_mod__b_offset_suboffset", "add_mod__c0_suboffset", "add_mod__c1_suboffset",
@@ -177,14 +192,30 @@ def stoneDynamicKeys : List String :=
    "uses_keccak_builtin", "uses_mul_mod_builtin", "uses_pedersen_builtin", "uses_poseidon_builtin",
    "uses_range_check96_builtin", "uses_range_check_builtin"]
 
-theorem stoneDynamicKeys_length : stoneDynamicKeys.length = 340 := by decide
+/-- the same keys as strings -/
+def stoneDynamicKeys : List String := stoneKeyChars.map String.ofList
 
-/-- the names of the sorted keys -/
-def sortKeyNames (ks : List String) : List String := (sortKeys (ks.map fun k => (k, 0))).map (·.1)
+theorem stoneDynamicKeys_length : stoneDynamicKeys.length = 340 := by
+  simp only [stoneDynamicKeys, List.length_map]
+  decide +kernel
+
+/-- spot check that the elaborator produced the strings written above -/
+example : stoneDynamicKeys.take 2 = ["add_mod__a0_suboffset", "add_mod__a1_suboffset"] ∧
+    stoneDynamicKeys.getLast? = some "uses_range_check_builtin" := by decide +kernel
+
+theorem stoneDynamicKeys_toList : stoneDynamicKeys.map String.toList = stoneKeyChars := by
+  simp only [stoneDynamicKeys, List.map_map]
+  have : (String.toList ∘ String.ofList) = id := by
+    funext l; simp
+  rw [this, List.map_id]
+
+/-- the sorted keys as the verifier's field names: what `dynamicParamsOf` compares with the struct fields -/
+def sortedFieldNames (ks : List String) : List String :=
+  (sortKeys (ks.map fun k => (k.toList, 0))).map fun kv => fieldName kv.1
 
 /-! ### insertion sort facts -/
 
-theorem insertKey_perm (x : String × Nat) : ∀ l, (insertKey x l).Perm (x :: l)
+theorem insertKey_perm (x : List Char × Nat) : ∀ l, (insertKey x l).Perm (x :: l)
   | [] => List.Perm.refl _
   | y :: ys => by
     unfold insertKey
@@ -196,17 +227,48 @@ theorem sortKeys_perm : ∀ l, (sortKeys l).Perm l
   | [] => List.Perm.refl _
   | x :: xs => (insertKey_perm x (sortKeys xs)).trans ((sortKeys_perm xs).cons x)
 
-theorem keyLe_total (a b : String × Nat) : keyLe a b = true ∨ keyLe b a = true := by
-  simp only [keyLe, decide_eq_true_eq]
-  exact String.le_total a.1 b.1
+theorem leChars_total : ∀ a b : List Char, leChars a b = true ∨ leChars b a = true
+  | [], _ => .inl rfl
+  | _ :: _, [] => .inr rfl
+  | a :: as, b :: bs => by
+    unfold leChars
+    by_cases h1 : a.toNat < b.toNat
+    · simp [h1]
+    · by_cases h2 : b.toNat < a.toNat
+      · simp [h2]
+      · simp only [h1, h2, ↓reduceIte]
+        exact leChars_total as bs
 
-theorem keyLe_trans {a b c : String × Nat} (h1 : keyLe a b = true) (h2 : keyLe b c = true) :
-    keyLe a c = true := by
-  simp only [keyLe, decide_eq_true_eq] at *
-  exact String.le_trans h1 h2
+theorem leChars_trans : ∀ {a b c : List Char}, leChars a b = true → leChars b c = true → leChars a c = true
+  | [], _, _, _, _ => rfl
+  | _ :: _, [], _, h, _ => by simp [leChars] at h
+  | _ :: _, _ :: _, [], _, h => by simp [leChars] at h
+  | a :: as, b :: bs, c :: cs, h1, h2 => by
+    unfold leChars at h1 h2 ⊢
+    by_cases hab : a.toNat < b.toNat
+    · by_cases hbc : b.toNat < c.toNat
+      · have : a.toNat < c.toNat := by omega
+        simp [this]
+      · by_cases hcb : c.toNat < b.toNat
+        · simp [hbc, hcb] at h2
+        · have : a.toNat < c.toNat := by omega
+          simp [this]
+    · by_cases hba : b.toNat < a.toNat
+      · simp [hab, hba] at h1
+      · simp only [hab, hba, ↓reduceIte] at h1
+        by_cases hbc : b.toNat < c.toNat
+        · have : a.toNat < c.toNat := by omega
+          simp [this]
+        · by_cases hcb : c.toNat < b.toNat
+          · simp [hbc, hcb] at h2
+          · simp only [hbc, hcb, ↓reduceIte] at h2
+            have h3 : ¬ a.toNat < c.toNat := by omega
+            have h4 : ¬ c.toNat < a.toNat := by omega
+            simp only [h3, h4, ↓reduceIte]
+            exact leChars_trans h1 h2
 
-theorem insertKey_sorted (x : String × Nat) : ∀ l, l.Pairwise (fun a b => keyLe a b = true) →
-    (insertKey x l).Pairwise (fun a b => keyLe a b = true)
+theorem insertKey_sorted (x : List Char × Nat) : ∀ l, l.Pairwise (fun a b => leChars a.1 b.1 = true) →
+    (insertKey x l).Pairwise (fun a b => leChars a.1 b.1 = true)
   | [], _ => List.pairwise_singleton _ _
   | y :: ys, h => by
     have h' := List.pairwise_cons.1 h
@@ -217,28 +279,32 @@ theorem insertKey_sorted (x : String × Nat) : ∀ l, l.Pairwise (fun a b => key
       intro z hz
       rcases List.mem_cons.1 hz with rfl | hz
       · exact hxy
-      · exact keyLe_trans hxy (h'.1 z hz)
+      · exact leChars_trans hxy (h'.1 z hz)
     · rename_i hxy
-      have hyx : keyLe y x = true := (keyLe_total x y).resolve_left hxy
+      have hyx : leChars y.1 x.1 = true := (leChars_total x.1 y.1).resolve_left hxy
       refine List.pairwise_cons.2 ⟨?_, insertKey_sorted x ys h'.2⟩
       intro z hz
       rcases List.mem_cons.1 ((insertKey_perm x ys).subset hz) with rfl | hz
       · exact hyx
       · exact h'.1 z hz
 
-/-- the result of `sortKeys` is sorted by key (ascending, Rust `BTreeMap` iteration order) -/
-theorem sortKeys_sorted : ∀ l, (sortKeys l).Pairwise (fun a b => keyLe a b = true)
+/-- the result of `sortKeys` is sorted by key (ascending: Rust `BTreeMap` iteration order) -/
+theorem sortKeys_sorted : ∀ l, (sortKeys l).Pairwise (fun a b => leChars a.1 b.1 = true)
   | [] => List.Pairwise.nil
   | x :: xs => insertKey_sorted x _ (sortKeys_sorted xs)
 
 /-- THE ORDER FACT: the Stone keys, sorted as Rust's `BTreeMap` iterates them and with `__` replaced by `_`,
     are exactly the verifier's `DynamicParams` struct fields in struct order. -/
-theorem dynamic_param_order_keys :
-    (sortKeyNames stoneDynamicKeys).map rename = Gen.DynamicParams.fields := by
+theorem dynamic_param_order_keys : sortedFieldNames stoneDynamicKeys = Gen.DynamicParams.fields := by
+  have h : (stoneDynamicKeys.map fun k => (k.toList, 0)) = stoneKeyChars.map fun c => (c, 0) := by
+    rw [← stoneDynamicKeys_toList, List.map_map]; rfl
+  unfold sortedFieldNames
+  rw [h]
   decide +kernel
 
 /-- the file's own order is already the sorted order -/
-theorem stoneDynamicKeys_sorted : sortKeyNames stoneDynamicKeys = stoneDynamicKeys := by
+theorem stoneKeyChars_sorted :
+    (sortKeys (stoneKeyChars.map fun c => (c, 0))).map (·.1) = stoneKeyChars := by
   decide +kernel
 
 /-- A successful `dynamicParamsOf`: the values are those of a permutation of the entries which is sorted by
@@ -246,11 +312,11 @@ theorem stoneDynamicKeys_sorted : sortKeyNames stoneDynamicKeys = stoneDynamicKe
     struct receives the value of the Stone key that is (up to `__`) its name. -/
 theorem dynamicParamsOf_ok {dp : List (String × Nat)} {vals : List Nat}
     (h : dynamicParamsOf dp = .ok vals) :
-    ∃ sorted : List (String × Nat), sorted.Perm dp ∧
-      sorted.Pairwise (fun a b => a.1 ≤ b.1) ∧
-      sorted.map (fun kv => rename kv.1) = Gen.DynamicParams.fields ∧
+    ∃ sorted : List (List Char × Nat), sorted.Perm (dp.map fun kv => (kv.1.toList, kv.2)) ∧
+      sorted.Pairwise (fun a b => leChars a.1 b.1 = true) ∧
+      sorted.map (fun kv => fieldName kv.1) = Gen.DynamicParams.fields ∧
       vals = sorted.map (·.2) ∧ (∀ v ∈ vals, v < 2 ^ 32) ∧
-      List.zip Gen.DynamicParams.fields vals = sorted.map (fun kv => (rename kv.1, kv.2)) := by
+      List.zip Gen.DynamicParams.fields vals = sorted.map (fun kv => (fieldName kv.1, kv.2)) := by
   unfold dynamicParamsOf at h
   simp only at h
   split at h
@@ -260,19 +326,17 @@ theorem dynamicParamsOf_ok {dp : List (String × Nat)} {vals : List Nat}
     · cases h
     · rename_i hv
       cases h
-      have hk' : (sortKeys dp).map (fun kv => rename kv.1) = Gen.DynamicParams.fields := by
+      have hk' : (sortKeys (dp.map fun kv => (kv.1.toList, kv.2))).map (fun kv => fieldName kv.1)
+          = Gen.DynamicParams.fields := by
         simpa using hk
-      refine ⟨sortKeys dp, sortKeys_perm dp, ?_, hk', rfl, ?_, ?_⟩
-      · exact (sortKeys_sorted dp).imp (by intro a b hab; simpa [keyLe] using hab)
+      refine ⟨_, sortKeys_perm _, sortKeys_sorted _, hk', rfl, ?_, ?_⟩
       · intro v hv'
         obtain ⟨kv, hkv, rfl⟩ := List.mem_map.1 hv'
-        have hall : ∀ kv ∈ sortKeys dp, ¬ kv.2 ≥ U32 := by
+        have hall : ∀ kv ∈ sortKeys (dp.map fun kv => (kv.1.toList, kv.2)), ¬ kv.2 ≥ U32 := by
           simpa [List.any_eq_true] using hv
         have := hall kv hkv
         simp only [U32] at this
         omega
-      · rw [← hk', List.zip_map, List.zip_self_map]
-        rw [List.map_map]
-        rfl
+      · rw [← hk', List.zip_map']
 
 end Swiftness.Loader
